@@ -122,8 +122,8 @@ Closure::~Closure() {
     if (rs == nullptr || !Sched::in_logical_thread() || S.aborting()) return;   // clean-up of an abandoned run
     int me = Sched::self_id();
     if (inst->destroyed > 1) rs->viol("closure of job " + std::to_string(inst->id) + " destroyed " + std::to_string(inst->destroyed) + " times");
-    if (rs->in_dtor) {
-        // ~ThreadPool destroys the jobs that are still queued; nothing may touch the pool any more
+    if (rs->in_dtor && me == 0) {
+        // ~ThreadPool (main thread) destroys the jobs that are still queued; nothing may touch the pool any more
         if (inst->runs != 0) rs->viol("job " + std::to_string(inst->id) + " was run but its closure lived until ~ThreadPool");
         S.note("job~" + std::to_string(inst->id));
         return;
